@@ -154,6 +154,18 @@ fn check(spec: &RbSpec, h: u64, out: &mut Vec<(String, String)>) -> u64 {
             }
         }
     });
+    // huge job limits ("no limit") never change the answer
+    spec.with(&mut |rb| {
+        for delta in [1u64, h / 2, h] {
+            let total: u64 = items(spec, delta).iter().sum();
+            for n in [1usize << 40, 1 << 60, usize::MAX - 1, usize::MAX] {
+                let got = su(rb.service_needed_by_n_jobs(d(delta), n));
+                if got != total {
+                    out.push((format!("{name}::service_needed_by_n_jobs#law+huge-limit"), format!("{:?}: service_needed_by_n_jobs({delta}, {n}) = {got}, service_needed = {total}", spec)));
+                }
+            }
+        }
+    });
     // per-component variant
     if let Some(comps) = components(spec) {
         let parts: Vec<Rc<dyn RequestBound>> = comps.iter().map(|x| x.rc()).collect();
@@ -183,6 +195,54 @@ fn check(spec: &RbSpec, h: u64, out: &mut Vec<(String, String)>) -> u64 {
     nontrivial
 }
 
+/// intervals with hundreds of jobs (dense arrivals), a handful of job limits each
+fn many_jobs(ctx: &mut Ctx, evals: &mut u64) {
+    let dense = [ArrSpec::Sporadic { t: 1, j: 0 }, ArrSpec::Sporadic { t: 2, j: 7 }, ArrSpec::Periodic { t: 3 }];
+    let costs = [CostSpec::Multiframe(vec![1, 2]), CostSpec::Multiframe(vec![2, 5, 9]), CostSpec::Scalar(3), CostSpec::Curve(vec![4, 5, 7])];
+    let mut specs = vec![];
+    for a in &dense {
+        for c in &costs {
+            specs.push(RbSpec::Rbf(a.clone(), c.clone()));
+        }
+    }
+    specs.push(RbSpec::Aggregate(vec![specs[0].clone(), specs[5].clone(), specs[10].clone()]));
+    specs.push(RbSpec::Slice(vec![specs[1].clone(), specs[4].clone(), specs[2].clone()]));
+    specs.push(RbSpec::Boxed(Box::new(specs[1].clone())));
+    let deltas: Vec<u64> = if ctx.quick() { vec![270, 1030] } else { vec![130, 270, 520, 1030, 2100] };
+    for spec in &specs {
+        for delta in &deltas {
+            *evals += 1;
+            let r = catch(|| {
+                let mut sorted = items(spec, *delta);
+                sorted.sort_by(|x, y| y.cmp(x));
+                let jobs = sorted.len();
+                let mut bad = None;
+                spec.with(&mut |rb| {
+                    for n in [0usize, 1, 2, 5, 17, jobs / 2, jobs.saturating_sub(1), jobs, jobs + 3] {
+                        let want: u64 = sorted.iter().take(n).sum();
+                        let got = su(rb.service_needed_by_n_jobs(d(*delta), n));
+                        if got != want && bad.is_none() {
+                            bad = Some(format!("service_needed_by_n_jobs({delta}, {n}) = {got}, the {n} largest of the {jobs} job costs sum to {want}"));
+                        }
+                    }
+                });
+                bad
+            });
+            let name = match spec {
+                RbSpec::Rbf(..) => "demand::RBF",
+                RbSpec::Aggregate(_) => "demand::Aggregate",
+                RbSpec::Slice(_) => "demand::Slice",
+                RbSpec::Boxed(_) => "Box<dyn RequestBound>",
+            };
+            match r {
+                Ok(None) => {}
+                Ok(Some(w)) => ctx.violation(&format!("{name}::service_needed_by_n_jobs#not-n-largest+many-jobs"), &format!("{:?}: {w}", spec), "rb-many", json!({"spec": spec, "delta": delta})),
+                Err(e) => ctx.violation("demand#panic", &format!("{:?} at delta {delta}: panic {e}", spec), "rb-many", json!({"spec": spec, "delta": delta})),
+            }
+        }
+    }
+}
+
 pub fn run(ctx: &mut Ctx) -> (String, Value, Vec<String>) {
     crate::util::silence_panics();
     let h = if ctx.quick() { 24 } else { 40 };
@@ -205,10 +265,11 @@ pub fn run(ctx: &mut Ctx) -> (String, Value, Vec<String>) {
             samples.push(json!({"spec": spec, "job_costs_at_delta_9": items(spec, 9)}));
         }
     }
+    many_jobs(ctx, &mut evals);
     let cov = json!({
         "evaluations": evals,
         "distinct_nontrivial": nontrivial,
-        "rule": format!("every request bound of the box ({} compositions: RBF over 9 arrival x 7 cost models, boxed, Aggregate/Slice pairs, two nesting levels; plus every multiframe vector of length <= 3/4 over {{0..3}} under three bursty arrival models, alone and as an Aggregate/Slice component) x every delta 0..={h} x every job limit 0..=jobs+2: all identities of the statement recomputed from the components; non-trivial = (spec, delta) points with more than two jobs", specs.len()),
+        "rule": format!("every request bound of the box ({} compositions: RBF over 9 arrival x 7 cost models, boxed, Aggregate/Slice pairs, two nesting levels; plus every multiframe vector of length <= 3/4 over {{0..3}} under three bursty arrival models, alone and as an Aggregate/Slice component) x every delta 0..={h} x every job limit 0..=jobs+2 and four limits near usize::MAX; 15 dense request bounds at intervals holding hundreds to thousands of jobs x nine job limits: all identities of the statement recomputed from the components; non-trivial = (spec, delta) points with more than two jobs", specs.len()),
         "compositions": specs.len(),
         "samples": samples,
         "exhaustive": true,
@@ -218,6 +279,26 @@ pub fn run(ctx: &mut Ctx) -> (String, Value, Vec<String>) {
 
 pub fn replay(case: &Value) -> bool {
     let spec: RbSpec = serde_json::from_value(case["spec"].clone()).unwrap();
+    if let Some(delta) = case.get("delta").and_then(|x| x.as_u64()) {
+        let r = catch(|| {
+            let mut sorted = items(&spec, delta);
+            sorted.sort_by(|x, y| y.cmp(x));
+            let jobs = sorted.len();
+            let mut bad = false;
+            spec.with(&mut |rb| {
+                for n in [0usize, 1, 2, 5, 17, jobs / 2, jobs.saturating_sub(1), jobs, jobs + 3] {
+                    let want: u64 = sorted.iter().take(n).sum();
+                    let got = su(rb.service_needed_by_n_jobs(d(delta), n));
+                    if got != want {
+                        println!("replay: service_needed_by_n_jobs({delta}, {n}) = {got}, want {want}");
+                        bad = true;
+                    }
+                }
+            });
+            bad
+        });
+        return r.unwrap_or(true);
+    }
     let h = case["h"].as_u64().unwrap_or(24);
     let mut out = vec![];
     let r = catch(|| check(&spec, h, &mut out));
